@@ -521,7 +521,7 @@ var (
 	portSuffixes = []string{
 		"", ":0", ":1", ":9", ":10", ":99", ":100", ":999", ":1000", ":9999", ":10000",
 		":59999", ":60000", ":60001", ":65535", // in-form up to here
-		":65536", ":99999", ":100000", ":080", ":00", ":060000", ":00001", ":+1", ":-1", ":", ": 1", ":1 ", ":6000x",
+		":65536", ":99999", ":100000", ":65537", ":125536", ":125537", ":131071", ":4294967297", ":4295027297", ":18446744073709551617", ":18446744073709611617", ":160001", ":080", ":00", ":060000", ":00001", ":+1", ":-1", ":", ": 1", ":1 ", ":6000x",
 	}
 
 	// the six valid addresses whose edit neighbourhood is enumerated (pairwise edit distance > 4,
